@@ -324,7 +324,9 @@ def check_many_placeholders():
 
 FIXED_TEXTS = ["# Scones for 4\n\nRub in {50} g.\n\n    200 g flour\n    50 g butter\n\n# Notes\n\nServe {2} each.\n\n# More for 3\n\ntext\n",
                "# One\n\n# Two\n\n    1 x\n\n# Three for 2\n",
-               "Intro {1}\n\n# Late title for 2\n\n    1 x\n\n# Another\n"]
+               "Intro {1}\n\n# Late title for 2\n\n    1 x\n\n# Another\n",
+               # a count written in the digits of another script is title text: nothing to scale, the heading is left as written
+               "# \u30ab\u30ec\u30fc for \uff14\n\n    1 x\n", "# Kabsa serves \u0664\n\n    1 x\n", "# Platter to serve \uff11\uff12\n\nText {2}.\n"]
 
 
 FENCE_CASE_DOC = ("# T\n\n```Recipe\nnot a recipe (\n```\n\n```recipe\na = 1 egg\n```\n\n~~~New-Recipe\nalso not (\n~~~\n\n```recipe\nfry(a)\n```\n\n"
@@ -366,9 +368,16 @@ def check_fixed_text(text):
     if results[0] != results[1]:
         out.append(("C13:output-depends-on-random-state", "%r" % text[:40]))
     first = re.search(r"^# (.*)$", text, re.M).group(1)
-    want = re.sub(r"\s+for \d+$", "", first)
+    want = re.sub(r"\s+for [0-9]+$", "", first)
     if mr.title != want and text.startswith("# "):
         out.append(("C13:title-is-not-the-first-heading", "%r: title %r" % (text[:40], mr.title)))
+    if text.startswith("# ") and want == first:
+        # no count: the heading reads the same at every scale
+        for h in results[-1]:
+            m = re.search(r"<h1[^>]*>(.*?)</h1>", h, re.S)
+            if not m or " ".join(re.sub(r"<[^>]*>", "", m.group(1)).split()) != " ".join(first.split()):
+                out.append(("C13:differs-from-plain-commonmark", "%r: the heading is shown as %r" % (text[:40], m.group(1) if m else None)))
+                break
     return out
 
 
